@@ -568,7 +568,8 @@ def run(ctx):
     texts, err = set(), None
     for perm in itertools.permutations(elems):
         try:
-            kind, val = _pc.call(ga, {"attr": list(perm), "attr_translate": dict(tr)})
+            kind, val = _pc.call(ga, {"attr": list(perm), "attr_translate": dict(tr)},
+                                 funcs={f_.name: f_ for f_ in vm.tree.body if isinstance(f_, ast.FunctionDef)})
         except Exception as ex:     # noqa
             err = f"{type(ex).__name__}: {ex}"
             break
